@@ -301,6 +301,11 @@ def gen_cpl(rng, kind='cpl', n=None):
             'A': {'m': p, 'n': n, 'v': A, 'sparse': bool(rng.random() < 0.3)}, 'b': b}
     if kind == 'cpl':
         inst['c'] = rvec(rng, n)
+    if rng.random() < 0.3:
+        inst['sparse_F'] = True
+        if rng.random() < 0.7:
+            inst['G'] = dict(inst['G'], sparse=True)
+            inst['A'] = dict(inst['A'], sparse=True)
     return inst
 
 
@@ -323,6 +328,7 @@ class ConvexF:
         self.max_calls = max_calls
         self.trace = []          # (x list, with_z, refused)
         self.keep_trace = True
+        self.sparse_out = bool(inst.get('sparse_F'))
 
     def in_domain(self, xl):
         if not all(comp_in_domain(c, self.n, xl) for c in self.comps):
@@ -362,10 +368,16 @@ class ConvexF:
         m = len(self.comps)
         f = matrix(vals, (m, 1), 'd')
         Df = matrix([grads[i][j] for j in range(n) for i in range(m)], (m, n), 'd')
+        if self.sparse_out:
+            # sparse Df and H with a constant (full) pattern: the sparse branches of the KKT factories
+            from cvxopt import spmatrix
+            Df = spmatrix(list(Df), [i for j in range(n) for i in range(m)], [j for j in range(n) for i in range(m)], (m, n), 'd')
         if z is None:
             return f, Df
         self.hess_calls += 1
         Hm = matrix([Hs[a][b] for b in range(n) for a in range(n)], (n, n), 'd')
+        if self.sparse_out:
+            Hm = spmatrix(list(Hm), [a for b in range(n) for a in range(n)], [b for b in range(n) for a in range(n)], (n, n), 'd')
         return f, Df, Hm
 
 
@@ -533,7 +545,16 @@ def gen_gp(rng):
     for j in range(n):
         G[j * 2 * n + j] = 1.0
         G[j * 2 * n + n + j] = -1.0
+    # the same functions as explicit components (for the plain-Python recomputation of result fields):
+    # f_k(x) = log sum exp(F_k x + g_k)
+    comps = []
+    start = 0
+    for k in K:
+        Ak = [F[j * tot + start + i] for j in range(n) for i in range(k)]
+        comps.append({'t': 'lse', 'k': k, 'A': Ak, 'b': g[start:start + k], 'd': 0.0})
+        start += k
     return {'kind': 'gp', 'n': n, 'p': 0, 'K': K, 'F': {'m': tot, 'n': n, 'v': F, 'sparse': False}, 'g': g,
+            'comps': comps, 'x0': [0.0] * n,
             'dims': {'l': 2 * n, 'q': [], 's': []},
             'G': {'m': 2 * n, 'n': n, 'v': G, 'sparse': bool(rng.random() < 0.3)}, 'h': [2.0] * (2 * n),
             'A': {'m': 0, 'n': n, 'v': [], 'sparse': False}, 'b': []}
